@@ -1,7 +1,7 @@
 INIT GenInit
 NEXT GenNext
 CONSTANTS
-  Alphabet = {48, 97, 126}
+  Alphabet = {48, 45, 126}
   MaxLen = 1
   Mode = "cmp"
 CHECK_DEADLOCK FALSE
